@@ -80,6 +80,8 @@ pub fn option_sets() -> Vec<Opts> {
         Opts { derive_mode: true, operation_name: Some("NoSuchOperation".into()), struct_ident: Some("NoSuchOperation".into()), ..Opts::default() },
         Opts { normalization_rust: true, ..Opts::harness() },
         Opts { skip_none: true, other_variant: true, deprecation: "deny", ..Opts::default() },
+        // what the derive macro passes: derive mode and the `query_file` option (an `include_str!` of that path is emitted)
+        Opts { derive_mode: true, operation_name: Some("MyQuery".into()), struct_ident: Some("MyQuery".into()), query_file: Some("/nonexistent/dir/q.graphql".into()), ..Opts::default() },
     ]
 }
 
